@@ -187,3 +187,38 @@ pub fn take_stack_alert(w: &World, kinds: &[&str]) -> Option<(&'static str, Stri
     let i = e.stack_alerts.iter().position(|a| kinds.contains(&a.0))?;
     Some(e.stack_alerts.remove(i))
 }
+
+/// Bounded-depth enumeration over the event alphabet of `gen::enum_case` (quantifiers of C04 / C06: "exhaustive over
+/// an event alphabet"): every run whose index is 3 modulo 5 takes the next enumerated history, depth by depth, as far
+/// as the tier's budget reaches (quick: depth <= 3, thorough: depth <= 4). The oracle stays the consumer's own.
+pub const ENUM_RESIDUE: u64 = 3;
+
+pub fn enum_max_depth(tier: Tier) -> u32 {
+    match tier {
+        Tier::Quick => 3,
+        Tier::Thorough => 4,
+    }
+}
+
+pub fn enum_generate(own: &str, run: u64, tier: Tier) -> Option<MacCase> {
+    if run % 5 != ENUM_RESIDUE {
+        return None;
+    }
+    let mut c = crate::gen::enum_case(run / 5, enum_max_depth(tier))?;
+    c.knob = if own == "C09" && (tier == Tier::Thorough || run % 8 == 0) { 1 } else { 0 };
+    Some(c)
+}
+
+/// What the enumeration covered in a batch of `runs` runs (for the evidence).
+pub fn enum_coverage(tier: Tier, runs: u64) -> serde_json::Value {
+    // indices 0..n of the enumeration were executed, n = number of run indices < runs that are 3 modulo 5
+    let n = if runs > ENUM_RESIDUE { (runs - ENUM_RESIDUE - 1) / 5 + 1 } else { 0 };
+    let n = n.min(crate::gen::enum_total(enum_max_depth(tier)));
+    serde_json::json!({
+        "alphabet": "15 application-level events: send unconfirmed/confirmed into silence; send answered in RX1 / in RX2 / with ACK / by a confirmed downlink / by a frame under a wrong key / by a replay / by MAC commands; Class C reception between the windows (other front-ends: garbage in RX2); idle Class C reception (other front-ends: radio error at call 2); join answered in RX1; join unanswered; radio error at the transmit request; save + power loss + restore",
+        "configurations": "9 regions x {nb, async, async + Class C} x {OTAA (starts with a join), ABP at FCntUp 0 / 0xFFFE / 2^32-3}",
+        "cases_executed": n,
+        "complete_to_depth": crate::gen::enum_complete_depth(n),
+        "max_depth_of_tier": enum_max_depth(tier),
+    })
+}
